@@ -1,5 +1,5 @@
 SPECIFICATION Spec
 CONSTANTS NW = 2  NR = 2  MaxW = 4  MaxI = 6  MaxJ = 3  JunkLens <- JL
-  UseWMu = TRUE  UseRMu = TRUE  UseLk = TRUE  DeobfInLock = TRUE  JunkRetry = TRUE  UnlockOnRetry = TRUE
+  UseWMu = TRUE  UseRMu = TRUE  UseLk = TRUE  DeobfInLock = TRUE  JunkRetry = TRUE  UnlockOnRetry = TRUE  KeyOwned = TRUE
 INVARIANT PrintScn
 CHECK_DEADLOCK FALSE
